@@ -3,9 +3,9 @@ EXTENDS C09pm_PstoreManager, Json
 \* JSON-able projection of the state for the replay (ghosts left out: one node per implementation state)
 St == [time |-> time, net |-> net, data |-> data, addr |-> addr, pc |-> pc, sub |-> sub,
        q |-> [i \in 1..Len(queue) |-> [p |-> queue[i].p, k |-> queue[i].k]],
-       stalled |-> (stalled # None), disc |-> disc, tickPending |-> tickPending, todo |-> todo,
-       cur |-> IF pc = "asked" THEN cur ELSE "-", cancelled |-> cancelled, ncall |-> ncall,
-       nwait |-> nwait]
+       stalled |-> (stalled # None), stalledEv |-> [p |-> stalled.p, k |-> stalled.k],
+       disc |-> disc, tickAt |-> tickAt, tickPending |-> tickPending, now |-> now, todo |-> todo,
+       cur |-> cur, reply |-> reply, cancelled |-> cancelled, ncall |-> ncall, nwait |-> nwait, nemit |-> nemit]
 EmitEdge == PrintT(<<"VFEDGE", ToJson([s |-> St, op |-> op', t |-> St'])>>)
 EmitPrio == Prio /\ EmitEdge
 MCInit == Init /\ PrintT(<<"VFINIT", ToJson(St)>>)
